@@ -525,6 +525,66 @@ func detectRenames(ref symTable, cfg string, cur symTable, objs map[string]types
 		}
 		recs = append(recs, renameRec{Key: mk, Old: mname, New: o.Name(), obj: o})
 	}
+	// a package function that became a method under another name (marshalFileStat(b, flags, fs) -> fs.marshalByFlags(b,
+	// flags)): the receiver and the parameters together are the old parameters, the results and the neighbourhood are
+	// the same.  Renamed back; that the home differs is resolved where functions are looked up (Program.FuncIn).
+	for _, mk := range missing {
+		me := ref[mk]
+		mp, mowner, mname := splitKey(mk)
+		if me.Kind != "func" || mowner != "" {
+			continue
+		}
+		already := false
+		for _, r := range recs {
+			if r.Key == mk {
+				already = true
+			}
+		}
+		if already {
+			continue
+		}
+		rp, rr, ok := splitSig(me.Sig)
+		if !ok {
+			continue
+		}
+		best, second, bestK := -1.0, -1.0, ""
+		for fk, fe := range ccur {
+			if fe.Kind != "method" || used[fk] || inRef(fk) || cobj[fk] == nil {
+				continue
+			}
+			fp, fowner, _ := splitKey(fk)
+			if fp != mp || fowner == "" {
+				continue
+			}
+			pp, pr, ok := splitSig(fe.Sig)
+			if !ok || strings.Join(pr, ",") != strings.Join(rr, ",") || len(pp)+1 != len(rp) {
+				continue
+			}
+			match := false
+			for _, recv := range []string{"*" + fp + "." + fowner, fp + "." + fowner} {
+				a := append(append([]string{}, pp...), recv)
+				b := append([]string{}, rp...)
+				sort.Strings(a)
+				sort.Strings(b)
+				if strings.Join(a, ";") == strings.Join(b, ";") {
+					match = true
+				}
+			}
+			if !match {
+				continue
+			}
+			sc := jaccard(membersFor(me, cfg), fe.Members)
+			if sc > best {
+				second, best, bestK = best, sc, fk
+			} else if sc > second {
+				second = sc
+			}
+		}
+		if bestK != "" && best >= 0.6 && best-second >= 0.2 {
+			used[bestK] = true
+			recs = append(recs, renameRec{Key: mk, Old: mname, New: cobj[bestK].Name(), obj: cobj[bestK]})
+		}
+	}
 	// a method that lost its name the way its siblings did: when some method m has been recognised as renamed to n,
 	// a missing T.m and an unknown T.n of the same signature are that rename too, whatever has become of the body
 	// (the body is what the rules are there to judge; it must not decide whether they get to see it)
@@ -694,4 +754,57 @@ func writeSymtab(repo, path string) error {
 		return err
 	}
 	return os.WriteFile(path, append(b, '\n'), 0o644)
+}
+
+// splitSig splits a signature rendered by sigNoRecv, "func(A, B) (R, S)", into its parameter and result types
+// (commas inside brackets, parentheses and braces do not split).
+func splitSig(sig string) (params, results []string, ok bool) {
+	if !strings.HasPrefix(sig, "func(") {
+		return nil, nil, false
+	}
+	depth, i := 0, 4
+	end := -1
+	for j := i; j < len(sig); j++ {
+		switch sig[j] {
+		case '(', '[', '{':
+			depth++
+		case ')', ']', '}':
+			depth--
+			if depth == 0 && end < 0 {
+				end = j
+			}
+		}
+		if end >= 0 {
+			break
+		}
+	}
+	if end < 0 {
+		return nil, nil, false
+	}
+	split := func(s string) []string {
+		var out []string
+		d, start := 0, 0
+		for j := 0; j < len(s); j++ {
+			switch s[j] {
+			case '(', '[', '{':
+				d++
+			case ')', ']', '}':
+				d--
+			case ',':
+				if d == 0 {
+					out = append(out, strings.TrimSpace(s[start:j]))
+					start = j + 1
+				}
+			}
+		}
+		if t := strings.TrimSpace(s[start:]); t != "" {
+			out = append(out, t)
+		}
+		return out
+	}
+	params = split(sig[5:end])
+	rest := strings.TrimSpace(sig[end+1:])
+	rest = strings.TrimSuffix(strings.TrimPrefix(rest, "("), ")")
+	results = split(rest)
+	return params, results, true
 }
